@@ -88,7 +88,7 @@ def generate(tape, tier="quick"):
             if tt >= pubs[0]:
                 last[ci] = tt
     return {"engine": "D", "grid": g, "src_units": su, "consumers": cons, "events": events,
-            "mask": tape.choice(["FLEX", "FLEX", "NONE"])}
+            "mask": tape.choice(["FLEX", "FLEX", "NONE", "fixed"] if gridded else ["FLEX", "FLEX", "NONE"])}
 
 
 def execute(sc):
@@ -102,7 +102,11 @@ def execute(sc):
     M = MGrid(g) if g else None
     shape = M.data_shape() if M else ()
     su = sc["src_units"]
-    out = Output(name="src", info=Info(time=dt(0), grid=G, units=su, mask=Mask[sc["mask"]]))
+    base = M.field([1.0, 10.0, 100.0][: M.dim + 1]) if M else np.float64(5.0)
+    maskarr = (np.round(base * 3.7) % 4 == 0) if M else None
+    fixed = sc["mask"] == "fixed"
+    # a fixed mask in the metadata: everything published on this output carries exactly that mask
+    out = Output(name="src", info=Info(time=dt(0), grid=G, units=su, mask=maskarr if fixed else Mask[sc["mask"]]))
     inputs = []
     for ci, c in enumerate(sc["consumers"]):
         inp = Input(name=f"c{ci}", info=Info(time=dt(0), grid=(make_grid(g) if g else NoGrid()) if c["grid"] == "same" else None,
@@ -116,8 +120,6 @@ def execute(sc):
         i.ping()
     for i in inputs:
         i.exchange_info()
-    base = M.field([1.0, 10.0, 100.0][: M.dim + 1]) if M else np.float64(5.0)
-    maskarr = (np.round(base * 3.7) % 4 == 0) if M else None
     pubs = []          # (t, array in source units, mask or None)
     prev_obj = None
     forms = set()
@@ -191,9 +193,11 @@ def execute(sc):
             elif not want_ok and ok:
                 v("share-not-refused" if form in ("same_obj", "view") else "push-accepted", form,
                   f"event {ei}: push of form {form} at {t} was accepted")
-            elif not want_ok and err != "FinamDataError":
+            elif not want_ok and err != "FinamDataError" and form != "bad_shape":
                 v("push-wrong-error", form, f"event {ei}: push of form {form} raised {err}")
             if ok:
+                if fixed:
+                    msk = maskarr
                 pubs.append((t, np.asarray(stored, dtype=float).copy(), msk))
                 if form in ("array", "array_t", "copy_prev", "same_obj", "view") and isinstance(payload, np.ndarray):
                     prev_obj = payload
